@@ -327,6 +327,20 @@ pub fn check_thread_local(
                     }
                 }
             }
+            // a dispatch is complete (its thread-local systems included) before the next dispatch of
+            // the same dispatcher starts anything
+            for &m in &bi.members {
+                for k in 0..wins[t].len() {
+                    if let (Some(wt), Some(wm_next)) = (wins[t].get(k), wins[m].get(k + 1)) {
+                        if !(wt.end < wm_next.begin) {
+                            return Err(Fail::new(format!(
+                                "thread-local system {} of dispatch {} (window [{}..{}]) had not finished when {} of the next dispatch began (t={})",
+                                flat.sys[t].sid(), k, wt.begin, wt.end, flat.sys[m].sid(), wm_next.begin
+                            )));
+                        }
+                    }
+                }
+            }
             // one at a time, in registration order
             if i + 1 < bi.tls.len() {
                 let u = bi.tls[i + 1];
